@@ -5,7 +5,7 @@ import ast
 
 from . import e2_formula as F
 from .core import AnchorError, Unsupported
-from .e1_srcmodel import dotted, walk_no_nested, parent, ancestors
+from .e1_srcmodel import dotted, walk_no_nested, parent, ancestors, utext
 from .e2_eval import Evaluator, is_unknown, need
 
 PSD = "pyyeti/psd.py"
@@ -29,7 +29,7 @@ def r1_area(ctx):
     f1, p1, L, s0 = F.sym("f1"), F.sym("p1"), F.sym("L"), F.sym("s0")
 
     def sub(node, ev):
-        t = ast.unparse(node).replace(" ", "")
+        t = utext(node)
         return {"Freq[i]": f1, "Freq[i+1]": f1 * F.exp(L), "PSD[i,j]": p1, "PSD[i+1,j]": p1 * F.exp(s0 * L)}.get(t, NotImplemented)
 
     vals = {}
@@ -99,14 +99,14 @@ def r2_interp(ctx):
     if len(arms) != 1:
         raise AnchorError("interp: `if linear`")
     lin, log = arms[0].body, arms[0].orelse
-    t = "".join(ast.unparse(s).replace(" ", "") for s in log)
+    t = "".join(utext(s) for s in log)
     ok = "interp1d(np.log(Freq),np.log(PSD)," in t and "psdfull=ifunc(np.log(freq))" in t
     ctx.check(ok, "interp (log-log): both axes of the specification and the query frequencies are taken to log", arms[0])
     ok = "pv=(freq>=Freq[0])&(freq<=Freq[-1])" in t and "psdfull[pv]=np.exp(psdfull[pv])" in t
     ctx.check(ok, "interp (log-log): exp() is applied to exactly the in-range results (out-of-range stays at the fill value 0)", arms[0])
     ok = "fill_value=0" in t and "bounds_error=False" in t
     ctx.check(ok, "interp (log-log): out-of-range queries give 0, not an error", arms[0], nontrivial=False)
-    t = "".join(ast.unparse(s).replace(" ", "") for s in lin)
+    t = "".join(utext(s) for s in lin)
     ok = "interp1d(Freq,PSD,axis=0" in t and "psdfull=ifunc(freq)" in t and "np.log" not in t and "np.exp" not in t
     ctx.check(ok, "interp (linear): no log/exp on either side", arms[0])
 
@@ -189,7 +189,7 @@ def r3_resample(ctx):
         ctx.check(ok, f"resample ({arm}): every {'q-th' if arm == 'q > 1' else ''} sample is kept after the lag is removed", st, None if ok else repr(k0))
         ctx.check(add_m, f"resample ({arm}): the mean removed before filtering is added back", st)
     # M is even and the padding is exactly M/2 on both sides
-    t = ast.unparse(fn).replace(" ", "")
+    t = utext(fn)
     ok = "M=2*pts*max(p,q)" in t and "nz=M//2" in t and "updata1=np.concatenate((z,updata1,z),axis=-1)" in t
     ctx.check(ok, "resample: M = 2 pts max(p, q) is even, and M//2 zeros are added at both ends (so M samples of lag are removed and ln*p remain)", fn)
     ok = "n=int(np.ceil(ln*p/q))" in t and "gf=math.gcd(p,q)" in t and "p=p//gf" in t and "q=q//gf" in t
